@@ -5,5 +5,17 @@ TEXT = {
         "decode∘encode = id; decode accepts exactly encoder outputs (all 729 / 6561 groups decided in the kernel, lifted by induction); error order and count. "
         "Model tied to the source by translated encodeGroup/decodeGroup, regenerated LUTs and source-text snapshots, and by an exhaustive-on-groups differential run.",
    note="Trusted: Lean kernel; extractor+harness; b1t6 decoders only specified on trits in {-1,0,1} (documented as undefined otherwise); Go int does not overflow in encodeGroup."),
+ "C10": dict(ref="DESIGN.md §5 C10",
+   technique="Lean 4 proof (parser = grammar, print/parse round trip by list induction) with regenerated call-site facts (ParseUint base/bit size, regexp literal) and exhaustive short-string correspondence",
+   text="Lean theorems over the executable model of ParsePath/String: parse(print p) = p for every path; parse s succeeds iff s is in the grammar (\"\", \"m\", optional m/ then digit+[H']? components, decimal value < 2^31) "
+        "and returns the decimal value (+2^31 if marked); leading zeros irrelevant. The tie regenerates the strconv.ParseUint base and bit size, the regexp literal and the source text from /repo; "
+        "the correspondence enumerates every string of length <= 5/6 over a 10-letter alphabet.",
+   note="Trusted: Lean kernel; extractor+harness; Go regexp/strconv/strings/fmt are modelled by their documented behaviour (exhaustively cross-checked on short strings). No-panic is observed by the correspondence run, the model being total."),
+ "C15": dict(ref="DESIGN.md §5 C15",
+   technique="Lean 4 proof (strong induction on the leaf count, for an arbitrary hash function) with source-text tie and differential correspondence over every leaf count up to thousands",
+   text="Lean theorems for every hash function H and every n <= 2^63: largestPowerOfTwo n is the unique power of two k with k < n <= 2k; Hash = RFC 6962 MTH (inductive relation, shown functional); "
+        "the first marshaling error in index order is returned, otherwise a hash. Correspondence runs every leaf count 0..600/4100 and 2^e±1 with three hash functions and an erroring leaf at every position of small trees.",
+   note="Trusted: Lean kernel; extractor+harness; crypto.Hash instances are functions of their input; Lean hash oracles in the driver. The bottom-up and audit-path equivalences of the statement are not yet theorems (partial); "
+        "they are exercised only through RFC-shaped MTH."),
 }
 PENDING = {}
